@@ -59,6 +59,7 @@ type Contract struct {
 	// PureFields: function-typed fields (callbacks into the application) assumed not to modify verifier-visible
 	// state; their results are unconstrained.
 	PureFields map[string]bool
+	CallbackMods map[string][]string // callback field -> designators it may modify
 	Reveal     map[string]bool // opaque ghost functions whose definition this function's proof may use
 }
 
@@ -268,8 +269,17 @@ func parseClause(c *Contract, text, loc string) error {
 		}
 		if c.PureFields == nil {
 			c.PureFields = map[string]bool{}
+			c.CallbackMods = map[string][]string{}
 		}
 		c.PureFields[fields[1]] = true
+		if i := strings.Index(text, "modifies"); i >= 0 {
+			rest := strings.TrimSpace(text[i+len("modifies"):])
+			if rest != "" && rest != "nothing" {
+				for _, d := range splitTopLevel(rest, ',') {
+					c.CallbackMods[fields[1]] = append(c.CallbackMods[fields[1]], strings.TrimSpace(d))
+				}
+			}
+		}
 	case "modifies":
 		c.ModGiven = true
 		rest := strings.TrimSpace(strings.TrimPrefix(text, "modifies"))
